@@ -14,6 +14,7 @@ CONSTANTS
   CallValues = {0, 1, 9}
   CallReqs <- BigCallReqs
   CreateValues = {0, 1, 9}
+  NatTargets = {}
 INVARIANTS TypeOK GasNeverGrows Conservation FinalState
 PROPERTIES FrameAtomic ValueStaysWithCaller
 ACTION_CONSTRAINT Edge
